@@ -35,11 +35,15 @@ import (
 
 func init() { runners["msgtree"] = runMsgTree }
 
+// commission rates the generator draws from, as raw LegacyDec integers (1e-18): both sides of the 25% cap, including values a
+// whole-percent or basis-point comparison would let through
+var commRates = []int{5e16, 2e17, 25e16, 25e16 + 1, 2501e14, 255e15, 26e16 - 1, 26e16, 6e17, 1e18}
+
 // a node of the generated message tree, in the model's vocabulary
 type mnode struct {
 	kind  string // eth | comm | send | grant | exec | proposal | wasm
 	who   int    // account index: signer / grantee / proposer / sender
-	arg   int    // comm: rate in percent; grant: grantee index; send: recipient
+	arg   int    // comm: rate as raw LegacyDec (1e-18); grant: grantee index; send: recipient
 	gkind string // grant: message kind granted (eth | comm | send | exec)
 	inner []mnode
 }
@@ -104,7 +108,7 @@ func runMsgTree(r *hx.R, n int, w *hx.W, _ []string) error {
 	mkStaking := func(ctx sdk.Context, op int, rate int64) sdk.Msg {
 		val := sdk.ValAddress(acctAddr(op))
 		if _, found := a.StakingKeeper.GetValidator(ctx, val); found {
-			d := sdkmath.LegacyNewDecWithPrec(rate, 2)
+			d := sdkmath.LegacyNewDecWithPrec(rate, 18)
 			return stakingtypes.NewMsgEditValidator(val, stakingtypes.Description{Moniker: stakingtypes.DoNotModifyDesc, Identity: stakingtypes.DoNotModifyDesc,
 				Website: stakingtypes.DoNotModifyDesc, SecurityContact: stakingtypes.DoNotModifyDesc, Details: stakingtypes.DoNotModifyDesc}, &d, nil)
 		}
@@ -114,7 +118,7 @@ func runMsgTree(r *hx.R, n int, w *hx.W, _ []string) error {
 			valKeys[op] = pk
 		}
 		m, err := stakingtypes.NewMsgCreateValidator(val, pk, sdk.NewInt64Coin("unibi", 1_000_000), stakingtypes.Description{Moniker: "m"},
-			stakingtypes.NewCommissionRates(sdkmath.LegacyNewDecWithPrec(rate, 2), sdkmath.LegacyOneDec(), sdkmath.LegacyOneDec()), sdkmath.OneInt())
+			stakingtypes.NewCommissionRates(sdkmath.LegacyNewDecWithPrec(rate, 18), sdkmath.LegacyOneDec(), sdkmath.LegacyOneDec()), sdkmath.OneInt())
 		if err != nil {
 			panic(err)
 		}
@@ -211,7 +215,7 @@ func runMsgTree(r *hx.R, n int, w *hx.W, _ []string) error {
 		case c < 2:
 			return mnode{kind: "eth"}
 		case c < 4:
-			rate := []int{5, 25, 26, 60, 100}[r.Pick(5)]
+			rate := commRates[r.Pick(len(commRates))]
 			who := r.Pick(2)
 			if r.Chance(1, 5) {
 				who = 3 // the contract as validator operator
@@ -241,7 +245,7 @@ func runMsgTree(r *hx.R, n int, w *hx.W, _ []string) error {
 			return m
 		}
 	}
-	rates := []int{5, 20, 25, 26, 60, 100}
+	rates := commRates
 	aimed := func() []mnode {
 		o := r.Pick(2)
 		x := (o + 1 + r.Pick(2)) % 3
@@ -440,13 +444,13 @@ func runMsgTree(r *hx.R, n int, w *hx.W, _ []string) error {
 	return nil
 }
 
-// msgtreeState renders what the model tracks: commission (percent, truncated) of the validators of accounts 0,1,3 and the
+// msgtreeState renders what the model tracks: commission (raw LegacyDec integer) of the validators of accounts 0,1,3 and the
 // generic grants among accounts 0..4 for the four message kinds.
 func msgtreeState(a *app.NibiruApp, ctx sdk.Context, acctAddr func(int) sdk.AccAddress, kindURL map[string]string) string {
 	var vals, grants []string
 	for _, i := range []int{0, 1, 3} {
 		if v, found := a.StakingKeeper.GetValidator(ctx, sdk.ValAddress(acctAddr(i))); found {
-			vals = append(vals, fmt.Sprintf("%d:%s", i, v.Commission.Rate.MulInt64(100).TruncateInt()))
+			vals = append(vals, fmt.Sprintf("%d:%s", i, v.Commission.Rate.BigInt().String()))
 		}
 	}
 	_ = grants
